@@ -108,10 +108,15 @@ def truthy_edges(fi: FuncInfo, is_expr: Callable[[ast.AST], bool], cfg: Optional
     pos: Set[Edge] = set()
     neg: Set[Edge] = set()
     reach = cfg.reachable()
+    named = _stable_named_tests(cfg)
     for n in cfg.nodes:
         if n.id not in reach or n.kind != "test":
             continue
         a, flip = canon_atom(n.ast)
+        if isinstance(a, ast.Name) and a.id in named and not denotes(a):
+            # `ok = E is not None` ... `if not ok:` — a named boolean about E
+            a2, flip2 = canon_atom(named[a.id])
+            a, flip = a2, (flip != flip2)
         want: Optional[bool] = None  # truth of the *atom a* on which E is truthy
         if denotes(a):
             want = True
